@@ -6,11 +6,16 @@
 //!  * `files`   — whole-file stream: corpus fonts, unmodified / truncated / boundary-valued / flipped,
 //!                opened via FileRef/FontRef/CollectionRef and fully traversed; purity (aligned vs
 //!                odd-offset copy on another thread).
+//!  * `hand`    — direct drivers (own generators, truncation, boundary values, random bytes) for the
+//!                hand-written parsers / lookups / iterators, family by family, in child processes
+//!                with iteration caps and a watchdog; correspondence with Model/HandRead.lean and
+//!                Model/HandIter.lean.
 //!  * `iters`   — hand-written iterators (cmap 4/12, packed points/deltas, VarLenArray) vs
 //!                Model/ReadIter.lean, with yield/termination bound oracles.
 use fv_harness::common::*;
 
 mod files;
+mod hand;
 mod iters;
 mod shapes;
 
@@ -22,11 +27,19 @@ fn run(cfg: &Config, s: &mut Session) {
     if only.is_empty() || only == "iters" {
         iters::run(cfg, s);
     }
+    if only.is_empty() || only == "hand" {
+        hand::run(cfg, s);
+    }
     if only.is_empty() || only == "files" {
         files::run(cfg, s);
     }
 }
 
 fn main() {
+    // the `hand` part runs each of its groups in a child process of this same executable
+    if let Ok(group) = std::env::var("C01_HAND_CHILD") {
+        hand::child_main(&group);
+        return;
+    }
     fv_harness::main_with("C01", run)
 }
